@@ -16,4 +16,16 @@ PROPS = {
             "variant names are single capitalised words (no heck case-splitting is modelled)",
         ],
     },
+    "C16": {
+        "rule": "UTF-8: all byte strings of length <= 2 and (quick) all 3-byte strings with leads E0/ED/EF/41/7F/80/C1/C2/DF/E1/F0/F4/F5 and 4-byte strings with leads F0/F4 x boundary second bytes, (thorough) all strings of length <= 3 and all 4-byte strings with lead F0..F4, via 65536-bit acceptance masks, plus random near-valid longer strings; views: every primitive element type x lengths (0..64) x {ref, mut, owned, NULL+0, str, owned str}; distinct = distinct protocol lines",
+        "trusted_base": [
+            KERNEL, HARNESS,
+            "modelled not verified: Rust reference/Box non-nullness and `&[]`/NonNull::dangling being non-null; core::str::from_utf8 is exercised as the implementation under test through diplomat_is_str",
+            "the harness's reference decoder (Unicode D92 definition) used as oracle for diplomat_is_str",
+        ],
+        "assumptions": [
+            "debug assertions are off in the harness build (NULL views with non-zero length are not exercised; the property only speaks of NULL+0)",
+            "diplomat_alloc/diplomat_free are not modelled (std allocator pass-through)",
+        ],
+    },
 }
